@@ -114,6 +114,14 @@ def tilt_lands(which):
         a = pr.focus_fixed_sampling(pupil, dx, efl, wvl, odx, S, shift=(fsx, fsy), method='mdft')
         b = pr.focus_fixed_sampling(pupil, dx, efl, wvl, odx, S, shift=(fsx, fsy), method='czt')
         check('fractional-shift-methods-agree', bool(np.allclose(abs(a), abs(b), atol=1e-8 * abs(a).max())))
+        # the inverse direction: a shift of the pupil-plane window (in pupil units) moves the pupil image the same way for both methods
+        F0 = pr.focus_fixed_sampling(np.pad(np.ones((max(1, m // 2), max(1, n // 2)), dtype=complex), ((1, m - max(1, m // 2) - 1 if m - max(1, m // 2) - 1 > 0 else 0), (1, n - max(1, n // 2) - 1 if n - max(1, n // 2) - 1 > 0 else 0))),
+                                     dx, efl, wvl, odx, S, method='mdft')
+        ush = (float(rng.integers(-2, 3)) * dx, float(rng.integers(-2, 3)) * dx)
+        pm = pr.unfocus_fixed_sampling(F0, odx, efl, wvl, dx, (m + 4, n + 4), shift=ush, method='mdft')
+        pc = pr.unfocus_fixed_sampling(F0, odx, efl, wvl, dx, (m + 4, n + 4), shift=ush, method='czt')
+        p0 = pr.unfocus_fixed_sampling(F0, odx, efl, wvl, dx, (m + 4, n + 4), shift=(0, 0), method='mdft')
+        check('unfocus-shift-methods-agree', bool(np.allclose(abs(pm), abs(pc), atol=1e-8 * abs(p0).max())))
     elif which == 'unfocus-fft-route':
         # FFT route, focal plane of ANY parity: a real spot displaced by (py, px) samples from the origin sample unfocuses to
         # exactly py and px waves of tilt across the pupil array, with zero phase at the pupil origin sample, and focusing that
@@ -132,6 +140,16 @@ def tilt_lands(which):
         check('spot-returns-to-its-sample', np.unravel_index(np.argmax(I), I.shape) == (M // 2 + py, N // 2 + px) and bool(np.isclose(I.max(), 1.0)))
         # and the free function agrees with the method
         check('function-equals-method', bool(np.allclose(pr.unfocus(spot, 1), pup.data, atol=1e-12)))
+        # a relay: focus with one focal length, unfocus with another (and the psf-plane spacing edited in between): the reported
+        # pupil spacing is lambda f2 / (N dx_psf) of THIS call, whatever produced the psf-plane object
+        f1, f2 = float(rng.uniform(50, 300)), float(rng.uniform(50, 300))
+        P0 = pr.Wavefront(np.ones((M, N), dtype=complex), wvl, dx, 'pupil')
+        Fp = P0.focus(f1, Q=1)
+        back2 = Fp.unfocus(f2, Q=1)
+        check('relay-reports-the-spacing-of-the-second-lens', bool(np.isclose(back2.dx, wvl * f2 / (N * Fp.dx), rtol=1e-12)))
+        Fp.dx = Fp.dx * 1.7
+        back3 = Fp.unfocus(f2, Q=1)
+        check('edited-psf-spacing-is-used', bool(np.isclose(back3.dx, wvl * f2 / (N * Fp.dx), rtol=1e-12)))
     else:
         # a displaced focal spot unfocuses to the corresponding pupil tilt
         qq = max(2, int(np.ceil(2 * m / n)))
